@@ -102,3 +102,4 @@ def run(ctx):
     gates(ctx)
     grideq.grid_identity(ctx)
     geom.local2global_rule(ctx)
+    geom.point_cloud(ctx)
